@@ -77,15 +77,22 @@ func simplify(start, s *State, visited map[*State]bool) {
 	for _, tr := range s.Transitions {
 		simplify(start, tr.Next, visited)
 	}
-	for s.simplifySelf(start) {
+	// inlined holds the shortcut targets already inlined into s: inlining one twice cannot add anything,
+	// and would never end when shortcuts form a cycle among states that are not simplified yet
+	inlined := map[*State]bool{}
+	for s.simplifySelf(start, inlined) {
 	}
 }
 
-func (s *State) simplifySelf(start *State) bool {
+func (s *State) simplifySelf(start *State, inlined map[*State]bool) bool {
 	for idx, tr := range s.Transitions {
 		if matcher.IsShortcut(tr.Matcher) {
 			next := tr.Next
 			s.Transitions = removeTransitionAt(idx, s.Transitions)
+			if inlined[next] {
+				return true
+			}
+			inlined[next] = true
 			for _, tr := range next.Transitions {
 				if !s.has(tr) {
 					s.Transitions = append(s.Transitions, tr)
